@@ -2244,6 +2244,14 @@ def _norm_region(stmts, kind, ctx):
                 st.orelse = list(st.orelse) + copy.deepcopy(rest)
                 stmts = stmts[:i + 1]
                 break
+            # the same at the end of a function (falling off the end is leaving): one small loop may be the tail
+            if kind == "func" and len(rest) == 1 and isinstance(rest[0], ast.For) and not rest[0].orelse \
+                    and sum(1 for _n in ast.walk(rest[0]) if isinstance(_n, ast.stmt)) <= 4 \
+                    and not any(isinstance(_n, FuncTypes + (ast.Lambda,)) for _n in ast.walk(rest[0])):
+                st.body = list(st.body) + copy.deepcopy(rest)
+                st.orelse = list(st.orelse) + copy.deepcopy(rest)
+                stmts = stmts[:i + 1]
+                break
     # nest: everything after an ``if`` with a leaving arm belongs to the other arm
     for i, st in enumerate(stmts):
         if isinstance(st, ast.If):
@@ -3261,11 +3269,15 @@ def canonical_ast(fn, helpers, methods=None, hier=None, segment=False):
         split_webs(f)
         from .inline import cleanup_copies
         cleanup_copies(f)
+        for g_ in ast.walk(f):
+            if isinstance(g_, FuncTypes) and g_ is not f:
+                cleanup_copies(g_)
         for _ in range(4):
             if not _propagate_pure(f):
                 break
         f = _Beta().visit(f)
         ast.fix_missing_locations(f)
+        _local_lambdas_to_defs(f)
         # helpers / closures that only now have a single-expression body
         inl = Inliner(helpers, methods or {})
         run_inliner(inl, f, frozenset())
